@@ -748,6 +748,10 @@ impl<T: Transport, E: UtpEnvironment> Dispatcher<T, E> {
             return Ok(());
         }
 
+        // Requests already waiting in the backlog go first: an accept call that was registered
+        // since the last cleanup must not be handed to this (newer) SYN.
+        self.cleanup_accept_queue()?;
+
         while let Some(acceptor) = self.accept_queue.try_next_acceptor() {
             match self.match_syn_with_accept(syn, acceptor) {
                 MatchSynWithAccept::Matched => return Ok(()),
